@@ -323,6 +323,11 @@ func (cx *Cx) fresh(prefix string) string {
 	return fmt.Sprintf("%s!%d", prefix, cx.nfresh)
 }
 
+// closureID: the fnid of closures of the named function literal (stable within one unit).
+func (cx *Cx) closureID(key string) int {
+	return 100000 + cx.tagOf(types.NewTuple(types.NewVar(0, nil, "clo_"+sanitize(key), types.Typ[types.Int])))
+}
+
 func (cx *Cx) tagOf(t types.Type) int {
 	k := types.TypeString(t, nil)
 	if n, ok := cx.tags[k]; ok {
